@@ -29,6 +29,10 @@ pub fn roundtrip_bytes(format: Format, game: truth::Game, maps: &[String], bytes
     }
     let c = tc::compile_with_image_source(format, game, maps, text.as_bytes(), Some(bytes));
     match c.value {
+        // (a constant division by zero sugared from a raw arithmetic instruction is a finding of its own, whatever the format)
+        None if c.diagnostics.contains("division by zero") && diag_class(&c.diagnostics) == "const evaluation error" =>
+            fail("recompile-of-decompiled-output-fails constant-division-by-zero".to_string(),
+                 format!("{} {} opts={optbits} width={width}: {} || text: {}", format.name(), game, c.diagnostics.lines().take(6).collect::<Vec<_>>().join(" / "), text.chars().take(600).collect::<String>())),
         None => fail(format!("recompile-of-decompiled-output-fails {} {}", format.name(), diag_class(&c.diagnostics)),
                      format!("{} opts={optbits} width={width}: {} || text: {}", game, c.diagnostics.lines().take(6).collect::<Vec<_>>().join(" / "), text.chars().take(600).collect::<String>())),
         Some(b2) => {
